@@ -129,12 +129,17 @@ template <int C, int R, class T, glm::qualifier Q> static void check_mat(pbt::Ct
 		for (int k = 0; k < C * R; ++k) glm::value_ptr(w)[k] = raw[C * R - 1 - k];
 		for (int col = 0; col < C; ++col) for (int r = 0; r < R; ++r) if (w[col][r] != raw[C * R - 1 - (col * R + r)]) FAIL("value_ptr-column-major", "store through value_ptr lands elsewhere than [%d][%d]", col, r);
 	}
-	auto mk = MakeMat<C, R, T, Q>::make(raw);
+	// make_mat builds the default-qualified type from the memory image value_ptr exposes. When that type has padded (aligned, 3-row)
+	// columns the image is not a contiguous C*R array, so there the contract is the round trip make_mat(value_ptr(m)) == m.
+	glm::mat<C, R, T, glm::defaultp> md;
+	for (int col = 0; col < C; ++col) for (int r = 0; r < R; ++r) md[col][r] = raw[col * R + r];
+	const T* image = (Al<glm::defaultp>::v && R == 3) ? glm::value_ptr(md) : raw;
+	glm::mat<C, R, T, glm::defaultp> mk = MakeMat<C, R, T, Q>::make(image);
 	for (int col = 0; col < C; ++col) for (int r = 0; r < R; ++r) if (mk[col][r] != raw[col * R + r]) FAIL("make_mat", "make_mat%dx%d [%d][%d]", C, R, col, r);
 	if constexpr (C == R) {
-		if constexpr (C == 2) { auto s = glm::make_mat2(raw); if (!(s == mk)) FAIL("make_mat", "make_mat2 != make_mat2x2"); }
-		if constexpr (C == 3) { auto s = glm::make_mat3(raw); if (!(s == mk)) FAIL("make_mat", "make_mat3 != make_mat3x3"); }
-		if constexpr (C == 4) { auto s = glm::make_mat4(raw); if (!(s == mk)) FAIL("make_mat", "make_mat4 != make_mat4x4"); }
+		if constexpr (C == 2) { auto s = glm::make_mat2(image); if (!(s == mk)) FAIL("make_mat", "make_mat2 != make_mat2x2"); }
+		if constexpr (C == 3) { auto s = glm::make_mat3(image); if (!(s == mk)) FAIL("make_mat", "make_mat3 != make_mat3x3"); }
+		if constexpr (C == 4) { auto s = glm::make_mat4(image); if (!(s == mk)) FAIL("make_mat", "make_mat4 != make_mat4x4"); }
 	}
 }
 
